@@ -31,6 +31,7 @@ import (
 type cinst struct {
 	r  *mux.Router[*H]
 	hs *mux.Hosts
+	g  *mux.Group[*H]
 }
 
 type cev struct {
@@ -57,6 +58,15 @@ func (cr *crun) newInst(name string, cfg *Cfg) {
 	ci := &cinst{}
 	if strings.HasPrefix(name, "h") {
 		ci.hs = mux.NewHosts(cfg.Lock)
+	} else if strings.HasPrefix(name, "g") {
+		// a quiescent group: router ga for host a.com, router gb for /v1/..., everything else is the group's own not-found
+		ci.g = mux.NewGroup[*H](cr.e.call, &H{kind: "gnf"}, b405, bopt)
+		ga := ci.g.New(name+"a", mux.NewHosts(false, "a.com"))
+		gb := ci.g.New(name+"b", mux.NewPathVersion("ver", "v1"))
+		for _, r := range []*mux.Router[*H]{ga, gb} {
+			r.Get("/x", &H{kind: "route", id: r.Name() + ":/x"})
+			r.Get("/{rest}", &H{kind: "route", id: r.Name() + ":/{rest}"})
+		}
 	} else {
 		c := *cfg
 		c.Name = name
@@ -136,6 +146,28 @@ func (cr *crun) exec1(g string, op *Op, evs *[]cev) string {
 		}()
 		o.w.finish()
 		return obj("res", js("ok"), "r", replyJSON(o))
+	case "gserve":
+		o := newObs()
+		o.w = newRecW()
+		o.w.o = o
+		if cr.log && evs != nil {
+			o.hook = func(ev, ctx string) {
+				s := atomic.AddInt64(&cr.ctr, 1)
+				*evs = append(*evs, cev{s, obj("ev", js(ev), "g", js(g), "seq", jint(int(s)), "ctx", js(ctx))})
+			}
+		}
+		req := mkRequest(op.Method, op.Path, op.Host, nil)
+		req = req.WithContext(context.WithValue(context.Background(), obsKey{}, o))
+		func() {
+			defer func() {
+				if v := recover(); v != nil {
+					o.panicKind, o.panicVal = describePanic(v)
+				}
+			}()
+			ci.g.ServeHTTP(o.w, req)
+		}()
+		o.w.finish()
+		return obj("res", js("ok"), "r", obj("kind", js(o.kind), "h", js(o.h), "pat", js(o.pat), "params", jmap(o.params), "rname", js(o.rname), "panic", js(o.panicKind), "urlPath", js(o.urlPath)))
 	case "hadd":
 		res, _ := guard(func() { ci.hs.Add(op.Domains...) })
 		return obj("res", js(res))
